@@ -74,6 +74,8 @@ def gen_scenario(rng, small=False):
         "clock_offsets": [rng.choice([0.0, 0.0, 5.0, -3.0, 100.0]) for _ in range(4)],
         # how long the pool thread may take before it starts running a submitted column (messages keep arriving meanwhile)
         "exec_start_delay": rng.choice([0.0, 0.5, 2.0, 4.0, 8.0]),
+        # ambient configuration that must be behaviour-neutral
+        "log_level": rng.choice([None, None, "DEBUG", "INFO"]),
     }
     if sc["max_wakeup_delay"] > 0:
         sc["delay_bias"] = {rng.choice(["w0", "w1", "w2", "*"]): rng.choice([0.3, 0.7, 0.95])}
